@@ -139,6 +139,7 @@ class C07(Cfg):
         last_dump, last_probe = None, {}
         pending_refused = None
         tainted = {}             # room -> signature of an accepted placing defect (the stored lists no longer match the accepted ones)
+        accepted_edges = set()   # placing references that came in through an accepted definition
         for op, out in zip(ops[1:], outs[1:]):
             k, a = kv(op)
             if out == "bad-op" or out == "panic":
@@ -178,6 +179,18 @@ class C07(Cfg):
                 if c is None: fail("malformed", op); break
                 if out == "ok":
                     n0 = len(res)
+                    # references from a row of this definition that no accepted definition carried: they were
+                    # put there by data synchronisation (C02 #21) and are about to be merged as "stored" ones
+                    if last_dump is not None and room in specs:
+                        owners = set([room]) | set(specs[room].groups.keys())
+                        for e in last_dump[1]:
+                            if e[0] in owners and e[2] in (32, 33, 34, 35) and e not in accepted_edges:
+                                tainted.setdefault(room, "definition-polluted-by-ingested-reference")
+                                fail("definition-polluted-by-ingested-reference",
+                                     "reference %s from a row of room %d was never part of an accepted definition; the merge treats it as stored" % (e, room))
+                                break
+                    for lst in [c["aedges"], c["authedges"]] + [au[k2] for au in c["auths"] for k2 in ("redges", "uedges", "uaedges")]:
+                        for e in lst: accepted_edges.add((e["src"], e["se"], e["l"], e["dst"], e["c"], e["by"]))
                     self._accepted(fail, specs, placed, room, c)
                     for sig, _ in res[n0:]:
                         if sig in ("placing-reference-label", "replayed-entry", "placing-reference-author", "room-row-replaced"):
@@ -212,6 +225,14 @@ class C07(Cfg):
                 elif live != "none":
                     fail("decisions-differ", "a room that was never accepted is loaded")
                 last_probe[room] = live
+            elif k in ("node", "edge", "ndel", "edel"):
+                if out != "q": fail("malformed", "%s -> %s" % (op, out)); break
+            elif k == "sync":
+                t = out.split()
+                if len(t) != 8 or t[0] != "sync": fail("malformed", out[:80]); break
+                d = dict(x.split("=", 1) for x in t[1:])
+                last_dump = (rows(d.get("N", "")), rows(d.get("E", "")))
+                pending_refused = None
             elif k in ("case", ""):
                 pass
             else:
